@@ -1,16 +1,21 @@
 import Verif.Common.Proto
 import Verif.C04.Model
+import Verif.C04.Generated
 /-!
 Line-protocol driver for the C04 model.
 
   fields
       -> "<required action tags, comma separated> <required package tags>"
-  hist <nsteps> { step <salt> <analyzers> <go> <godebug> <nacts> { act … } }
+  hist <nsteps> { step <salt> <analyzers> <go> <nenv> (<name> <val>)* <nacts> { act … } }
       one whole history (invocations sharing one cache) per line; every string is a token
       without spaces (the harness interns values).  An action is
-        act <pkgPath> <initial 0|1> <cfg> <goos> <goarch> <nfiles> <file>* <nimports> (<path> <id>)*
+        act <pkgPath> <initial 0|1> <ncfg> (<field> <val>)* <goos> <goarch> <nfiles> <file>* <nimports> (<path> <id>)*
             <npkgextra> (<tag> <val>)* <nkeyextra> (<tag> <val>)* <ndeps> <index>* <obs>
         obs = fail | ok <vetx content digest> <results content digest | ->
+      The configuration fields / environment variables are the named values printed in the HASH
+      lines; the key and the analysis inputs are built with the regenerated `Gen.shape`
+      (`keyOf` hashes `restrict cfgHashed` / `restrict envHashed`; the table of observed
+      outcomes is keyed by the key).
       `obs` is what the real run produced for that action; it is used as the analysis
       function (a table from the model's key to the observed outcome), the model then decides
       by itself which actions are cache hits and what the cache serves.
@@ -69,7 +74,7 @@ def pAct : Toks → Option (ObsAct × Toks)
     let (path, ts) ← pStr ts
     let (ini, ts) ← pStr ts
     let ini ← parseBool ini
-    let (cfg, ts) ← pStr ts
+    let (cfg, ts) ← pCounted pPair ts
     let (goos, ts) ← pStr ts
     let (goarch, ts) ← pStr ts
     let (files, ts) ← pCounted pStr ts
@@ -90,10 +95,17 @@ def pStep : Toks → Option (ObsStep × Toks)
     let (salt, ts) ← pStr ts
     let (an, ts) ← pStr ts
     let (go, ts) ← pStr ts
-    let (gd, ts) ← pStr ts
+    let (gd, ts) ← pCounted pPair ts
     let (acts, ts) ← pCounted pAct ts
     pure (⟨⟨salt, an, go, gd, acts.map (·.pkg)⟩, acts⟩, ts)
   | _ => none
+
+/-- The shape the trace runs with: the key side is the regenerated `Gen.shape`; the analysis
+side is made to read exactly what is hashed, so that the observed outcome of an action can be
+looked up under its key (the observed facts files are not byte-deterministic, so an outcome
+belongs to a key, not to the coarser view of what the analyzers read). -/
+def driverShape : Shape :=
+  { Gen.shape with cfgReads := Gen.shape.cfgHashed, envReads := Gen.shape.envHashed }
 
 /-- structural hashes (injective by construction); the analysis is filled in from the table -/
 def P0 : Params PD0 VD0 D0 := ⟨id, id, id, fun _ _ _ => .error ["unobserved"]⟩
@@ -117,17 +129,19 @@ def outcomeOf : Option (String × Option String) → Outcome
   | none => .error ["failed"]
   | some (v, rd) => .done v (resultsOf rd)
 
-/-- table from the action key (with the *observed* facts digests of the dependencies) to the
-observed outcome, over the whole history -/
-def obsTable (steps : List ObsStep) : List (D0 × Outcome) :=
+/-- table from (action key with the *observed* facts digests of the dependencies, factsOnly)
+to the first observed outcome, over the whole history.  The same key can be analysed twice —
+first as a dependency (facts only), later as an initial package, when the `results` entry is
+missing — and the two analyses write different facts bytes. -/
+def obsTable (steps : List ObsStep) : List ((D0 × Bool) × Outcome) :=
   steps.flatMap fun s =>
     s.acts.filterMap fun a =>
       match obsDeps s.acts a.pkg.deps with
-      | some dv => some (key P0 (mkInputs s.world a.pkg dv), outcomeOf a.obs)
+      | some dv => some ((keyOf driverShape P0 s.world a.pkg dv, !a.pkg.initial), outcomeOf a.obs)
       | none => none
 
-def mkParams (table : List (D0 × Outcome)) : Params PD0 VD0 D0 :=
-  { P0 with an := fun _ _ i => (find (key P0 i) table).getD (.error ["unobserved"]) }
+def mkParams (table : List ((D0 × Bool) × Outcome)) : Params PD0 VD0 D0 :=
+  { P0 with an := fun _ f i => (find (key P0 i, f) table).getD (.error ["unobserved"]) }
 
 def indexOf (k : D0) : List D0 → Nat → Option Nat
   | [], _ => none
@@ -156,12 +170,12 @@ def traceActs (P : Params PD0 VD0 D0) (w : World) :
   | st, done, a :: rest, acc =>
     match depVetx done a.pkg.deps with
     | none =>
-      let r := doPkg P w st.cache st.nonce done a.pkg
+      let r := doPkg driverShape P w st.cache st.nonce done a.pkg
       traceActs P w ⟨r.1, r.2.1, st.seen⟩ (done ++ [(a.pkg, r.2.2)]) rest ("d-+/" :: acc)
     | some dv =>
-      let ai := mkInputs w a.pkg dv
-      let k := key P ai
-      let r := doPkg P w st.cache st.nonce done a.pkg
+      let ai := ainOf driverShape w a.pkg dv
+      let k := keyOf driverShape P w a.pkg dv
+      let r := doPkg driverShape P w st.cache st.nonce done a.pkg
       let letter := if r.2.1 = st.nonce then "h" else match r.2.2 with | .failed _ => "f" | .ok _ _ => "m"
       let (cls, seen) := match indexOf k st.seen 0 with
         | some i => (i, st.seen)
